@@ -1,8 +1,8 @@
 #!/usr/bin/env python3
-def cfg(name, ninc=2, notify=1, deliver=1, window="TRUE", guard="TRUE", cleanup="FALSE", serial="FALSE", invs=None, depth=None):
+def cfg(name, ninc=2, notify=1, deliver=1, window="TRUE", guard="TRUE", cleanup="FALSE", serial="FALSE", invs=None, depth=None, batch=0, retryends="TRUE"):
     out = "INIT SimInit\nNEXT SimNext\n" if depth else "SPECIFICATION Spec\n"
-    out += "CONSTANTS\n  NInc = %d\n  MaxNotify = %d\n  MaxDeliver = %d\n  WindowFix = %s\n  GuardFix = %s\n  CleanupFix = %s\n  SerialReg = %s\n" % (
-        ninc, notify, deliver, window, guard, cleanup, serial)
+    out += "CONSTANTS\n  NInc = %d\n  MaxNotify = %d\n  MaxDeliver = %d\n  WindowFix = %s\n  GuardFix = %s\n  CleanupFix = %s\n  SerialReg = %s\n  MaxBatch = %d\n  RetryEnds = %s\n" % (
+        ninc, notify, deliver, window, guard, cleanup, serial, batch, retryends)
     if depth:
         out += "  Depth = %d\n" % depth
     else:
@@ -19,5 +19,9 @@ cfg("life_ideal", cleanup="TRUE", serial="TRUE", invs=ALL)               # the t
 cfg("life_cur3", ninc=3, serial="TRUE", invs="AllGone NoCrash NewestSender")
 cfg("life_cur_full3", ninc=3, notify=2, invs="AllGone NoCrash")
 cfg("life_ideal3", ninc=3, cleanup="TRUE", serial="TRUE", invs=ALL)
+# task batches for a target shard whose sender is between incarnations: the receiver's retry loop
+cfg("life_batch", serial="TRUE", batch=2, invs="AllGone NoCrash NewestSender RetryCanEnd")
+cfg("life_batch_mut", serial="TRUE", batch=1, retryends="FALSE", invs="RetryCanEnd")      # violated: vacuity guard
+cfg("sim_b", batch=2, depth=36)
 cfg("sim_q", depth=34)
 cfg("sim_t", ninc=3, notify=2, deliver=2, depth=52)
